@@ -48,13 +48,15 @@ extern "C" void h_hist() {
     File * f = new File; f->compressionLevel = 0; f->setDefaultLogContainerSize(64);
     // queue capacity scaled down from 10 to 2: with 5 objects in the file the reader thread waits on the full queue
     f->m_readWriteQueue.setBufferSize(2);
-    int state = CLOSED; bool opened = false; int delivered = 0; bool sawNull = false; int written = 0;
+    int state = CLOSED; bool opened = false; int delivered = 0; bool sawNull = false; int written = 0; int strayWrites = 0;
     for (int s = 0; s < STEPS && f; s++) {
         uint32_t op = (s == 0 && FIRST_OP >= 0) ? (uint32_t)FIRST_OP : (s == 1 && SECOND_OP >= 0) ? (uint32_t)SECOND_OP
                       : (uint32_t)vp_concrete(vp_choose(NOPS, "op"));
         // histories respect the mode of the open session; one successful open per session
         if (op == READ && state != READING) { vp_reach("h_hist:end"); delete f; return; }
-        if (op == WRITE && state != WRITING) { vp_reach("h_hist:end"); delete f; return; }
+        // one write() outside a write session is explored as well (the object still belongs to the library and must be freed
+        // when the File goes away); more of them would only fill the queue nobody drains
+        if (op == WRITE && state != WRITING) { if (state == READING || strayWrites >= 1) { vp_reach("h_hist:end"); delete f; return; } strayWrites++; }
         if ((op == OPEN_VALID_IN || op == OPEN_OUT) && opened && state == CLOSED) { vp_reach("h_hist:end"); delete f; return; }
         switch (op) {
         case OPEN_MISSING_IN: f->open(VP_FILE("missing.blf"), std::ios_base::in); break;
